@@ -13,6 +13,18 @@ EXPLANATION = ("general theorems (all histories) in Props/C20.v; correspondence 
                "length <= 4 (quick) / <= 5 (thorough) on a 3-element universe plus random long histories")
 ASSUMPTIONS = ["random.choice(seq) returns seq[i] for the i the oracle scripts (CPython)"]
 TRUSTED = []
+TECHNIQUE = ("Coq proof (invariant + refinement to a plain set, induction over histories) "
+             "+ model/implementation correspondence")
+LEVEL_TEXT = (
+    "General theorems in coq/Props/C20.v: for every finite add/remove/draw/contains/len/iter history the model's "
+    "outputs satisfy the plain-set specification, the list/dict invariant holds in every reachable state, every "
+    "member can be drawn, removal of an absent element raises and leaves the state unchanged. The model is tied to "
+    "gcmpy/tools/draw_set.py by an every-step exact comparison of outputs, _edges and _edge_hashmap "
+    "(exhaustive short histories + random long ones), and the verified checker c20_check judges the "
+    "implementation's own outputs.")
+LEVEL_NOTE = ("Trusted: Coq kernel; extraction (ExtrOcamlBasic) + OCaml driver + Python harness for the "
+              "correspondence; CPython random.choice indexing. No axioms (Print Assumptions: closed under the "
+              "global context).")
 
 OPS = ["add", "remove", "draw", "contains", "len", "iter"]
 
